@@ -93,25 +93,7 @@ pub fn check_li(r: &mut Recorder, input: &[u8], exp: &Value) {
             if v.language.is_empty() != (v.language.as_str() == "und") || (v.language.is_empty() && v.language != Language::default()) {
                 r.dis(&["C15", "C12", "C02"], "und-has-two-representations", det(input, json!("und <=> is_empty <=> == default()"), json!({"as_str": v.language.as_str(), "is_empty": v.language.is_empty()})));
             }
-            // C13: Locale accepts it with an identical id, no extensions, same text
-            match guard(|| Locale::from_bytes(input)) {
-                Ok(Ok(l)) => {
-                    if &l.id != v || !l.extensions.is_empty() || l.to_string() != ser
-                        || proj_loc(&l) != proj_loc(&Locale::from(v.clone())) {
-                        r.dis(&["C13"], "locale-differs-from-langid", det(input, p.clone(), proj_loc(&l)));
-                    }
-                    let back: LanguageIdentifier = Locale::from(v.clone()).into();
-                    if &back != v {
-                        r.dis(&["C13"], "li-locale-li-not-identity", det(input, p.clone(), proj_li(&back)));
-                    }
-                    let asref: &LanguageIdentifier = l.as_ref();
-                    if asref != v {
-                        r.dis(&["C13"], "asref-differs", det(input, p.clone(), proj_li(asref)));
-                    }
-                }
-                Ok(Err(e)) => r.dis(&["C13"], "locale-rejects-langid", det(input, p.clone(), json!(format!("{:?}", e)))),
-                Err(at) => r.dis(&["C01"], &format!("panic@{}", short_at(&at)), det(input, json!(null), json!({"api":"Locale::from_bytes","panic":at}))),
-            }
+            li_vs_locale(r, input, v);
             r.stat("li_accepted");
         }
         (Err(e), false) => {
@@ -128,6 +110,8 @@ pub fn check_li(r: &mut Recorder, input: &[u8], exp: &Value) {
         }
         (Ok(v), false) => {
             r.dis(&["C02"], "li-accepts-ill-formed", det(input, json!({"err": exp["err"]}), json!({"ok": proj_li(v), "ser": v.to_string()})));
+            // C13 speaks of every input the LIBRARY's LanguageIdentifier accepts, whatever the grammar says about it
+            li_vs_locale(r, input, v);
         }
         (Err(e), true) => {
             r.dis(&["C02"], "li-rejects-well-formed", det(input, exp["val"].clone(), json!(li_err_kind(e))));
@@ -148,6 +132,31 @@ pub fn check_li(r: &mut Recorder, input: &[u8], exp: &Value) {
             }
             Err(at) => r.dis(&["C01"], &format!("panic@{}", short_at(&at)), det(input, json!(null), json!({"api":"FromStr","panic":at}))),
         }
+    }
+}
+
+/// C13: whatever LanguageIdentifier accepts, Locale accepts with an identical id, no extensions and the same text
+fn li_vs_locale(r: &mut Recorder, input: &[u8], v: &LanguageIdentifier) {
+    let p = proj_li(v);
+    let ser = v.to_string();
+    // C13: Locale accepts it with an identical id, no extensions, same text
+    match guard(|| Locale::from_bytes(input)) {
+        Ok(Ok(l)) => {
+            if &l.id != v || !l.extensions.is_empty() || l.to_string() != ser
+                || proj_loc(&l) != proj_loc(&Locale::from(v.clone())) {
+                r.dis(&["C13"], "locale-differs-from-langid", det(input, p.clone(), proj_loc(&l)));
+            }
+            let back: LanguageIdentifier = Locale::from(v.clone()).into();
+            if &back != v {
+                r.dis(&["C13"], "li-locale-li-not-identity", det(input, p.clone(), proj_li(&back)));
+            }
+            let asref: &LanguageIdentifier = l.as_ref();
+            if asref != v {
+                r.dis(&["C13"], "asref-differs", det(input, p.clone(), proj_li(asref)));
+            }
+        }
+        Ok(Err(e)) => r.dis(&["C13"], "locale-rejects-langid", det(input, p.clone(), json!(format!("{:?}", e)))),
+        Err(at) => r.dis(&["C01"], &format!("panic@{}", short_at(&at)), det(input, json!(null), json!({"api":"Locale::from_bytes","panic":at}))),
     }
 }
 
@@ -275,7 +284,8 @@ pub fn check_loc(r: &mut Recorder, input: &[u8], exp: &Value) {
         }
         Err(_) => {
             if zone == "accept" {
-                r.dis(&["C03"], "loc-rejects-well-formed", det(input, exp["val"].clone(), json!(format!("{:?}", got.as_ref().err()))));
+                // (C13 too: a well-formed locale that is rejected has no id to equal the language identifier of its prefix)
+                r.dis(&["C03", "C13"], "loc-rejects-well-formed", det(input, exp["val"].clone(), json!(format!("{:?}", got.as_ref().err()))));
             }
             match guard(|| unic_locale_impl::canonicalize(input)) {
                 Ok(Err(_)) => {}
@@ -933,6 +943,7 @@ pub fn dispatch(r: &mut Recorder, c: &Value) {
         #[cfg(feature = "likelysubtags")]
         "likely" => crate::likely::check_likely(r, c),
         "dir" => crate::dir::check_dir(r, c),
+        "seq" => crate::dir::check_seq(r, c),
         "sweep" | "sweep_dir" | "sweep_universe" => {
             let mut sw = r.sweep.take().unwrap_or_default();
             sw.add(r, c);
